@@ -1453,6 +1453,18 @@ def selftest():
                     chk("within-tolerance table: residual in (0, 0.05]", 1e-4 < info["residual"] <= 0.05)
                     moved = sum(1 for iv in range(9) for p in rp["keys"] if abs(rp["rows"][iv][p] - float(info["full"][iv][p])) > 1e-3)
                     chk("within-tolerance table: the fill must move tabulated numbers", moved >= 9)
+    # 8. weak-component tables: the weak pair is an independent component of its system, the table stays consistent,
+    #    and the weak values sit between the command's drop tolerance (1e-8) and 1e-4 at every volume
+    for s in SYSTEM_NAMES:
+        chk("weak pair is independent", TINY_PAIR[s] in R.SYSTEMS[s]["independent"])
+        for t in range(1, len(TINY)):
+            for g in GIVEN:
+                text, info = fill_table(s, "float", g, "c", "voigt", 9, 1, "plain", tiny=t)
+                rp = R.parse_static(text)
+                for iv in range(9):
+                    full = R.fill_reference(s, {p: rp["rows"][iv][p] for p in R.SYSTEMS[s]["independent"]})
+                    chk("weak table consistent", all(abs(full[p] - float(info["full"][iv][p])) < 1e-12 for p in R.VOIGT_PAIRS))
+                    chk("weak magnitude", 1e-7 < abs(rp["rows"][iv][TINY_PAIR[s]]) < 1e-4)
     chk("printed_half_unit", R.printed_half_unit("399.200123") == 0.5e-6 and R.printed_half_unit("61") == 0.5 and
         abs(R.printed_half_unit("1.5e-07") - 0.5e-8) < 1e-20)
     if fails:
